@@ -502,11 +502,27 @@ func c31(repo string, out *fg.Out) error {
 			return fmt.Errorf("ArrowWriter.%s not found", fn)
 		}
 		ast.Inspect(fd.Body, func(n ast.Node) bool {
-			if is, ok := n.(*ast.IfStmt); ok && aw.Text(is.Cond) == "name[0] == '_'" && lastAction(aw, is.Body) == "continue" {
-				skipUnderscore++
+			if is, ok := n.(*ast.IfStmt); ok && lastAction(aw, is.Body) == "continue" {
+				// accepted spellings of the guard (with or without the empty-name check in front)
+				switch strings.Join(strings.Fields(aw.Text(is.Cond)), " ") {
+				case "name[0] == '_'", "len(name) == 0 || name[0] == '_'":
+					skipUnderscore++
+				}
 			}
 			return true
 		})
+	}
+	// shape expectation: the guard is either in BOTH functions or in NEITHER (0 = the skip was
+	// removed on purpose; then `C31_underscore_witness` stops holding and must be restated)
+	if skipUnderscore != 0 && skipUnderscore != 2 {
+		return fmt.Errorf("inferSchema/getSchema: found %d `name[0] == '_'` skip guards (expected 2, or 0 if removed)", skipUnderscore)
+	}
+	if skipUnderscore == 0 {
+		for _, fn := range []string{"inferSchema", "getSchema"} {
+			if strings.Contains(aw.Text(aw.FuncDecl("ArrowWriter", fn).Body), "'_'") {
+				return fmt.Errorf("%s still mentions '_' but no recognised skip guard was found (guard rewritten?)", fn)
+			}
+		}
 	}
 
 	// ---- emit
